@@ -13,9 +13,9 @@ RULE = ("each case is a seeded batch of inputs for one monitor kind (orthant / b
 ASSUMPTIONS = ["float64; projection identities checked with relative tolerance 1e-12*(|x|+radius)",
                "Jacobian compared only at relative distance >= 1e-3 from the active-set boundary",
                "M random SPD with cond <= 1e8, W full column rank (smallest singular value >= 1e-3 * largest)"]
-REQUIRED_MONITORS = ["orthant.projection", "ball.projection", "ball.degenerate", "ball.jacobian", "residual", "prox_parameter"]
+REQUIRED_MONITORS = ["orthant.projection", "ball.projection", "ball.degenerate", "ball.jacobian", "residual", "prox_parameter", "purity"]
 
-KINDS = ["orthant", "ball", "ball_jac", "residual", "proxpar"]
+KINDS = ["orthant", "ball", "ball_jac", "residual", "proxpar", "purity"]
 
 
 def cases(tier, seed):
@@ -49,6 +49,23 @@ def run_case(spec, ctx):
     kind = spec["kind"]
     sig = []
     both_sides = [False, False]
+    if kind == "purity":
+        # the proximal maps are pure functions of their arguments (Sphere keeps only the friction coefficient)
+        from vlib.oracles import purity_check
+        thunks = []
+        ball = Sphere(float(loguniform(rng, 1e-2, 1e2)))
+        for b in range(spec["batch"]):
+            n = int(rng.integers(1, 5))
+            x, z = _vec(rng, n), _z(rng)
+            sig.append([x.tolist(), z])
+            thunks.append(("NegativeOrthant.prox", {"x": x}, (lambda a=x: NegativeOrthant.prox(a.copy()))))
+            thunks.append(("Sphere.prox", {"x": x, "z": z, "r": ball.r}, (lambda a=x, c=z: ball.prox(a.copy(), c))))
+            thunks.append(("Sphere.prox", {"x": x, "z": z, "r": ball.r, "instance": "fresh"}, (lambda a=x, c=z: Sphere(ball.r).prox(a.copy(), c))))
+        purity_check(ctx, rng, thunks, mon="purity")
+        ctx.cls("kind:purity")
+        ctx.sig([kind, sig[:3]], nontrivial=True)
+        ctx.sample({"kind": kind, "calls": len(thunks)})
+        return
     for b in range(spec["batch"]):
         if kind == "orthant":
             n = int(rng.integers(1, 5))
